@@ -15,13 +15,13 @@ Cases == ndJsonDeserialize(IOEnv.TRACES)
 
 VARIABLES blk, tid, verdict
 
-(* sample points: one per unit cell (at 1/4, 3/4 of the cell) of the viewBox grown by 2 units; *)
+(* sample points: one per unit cell (at 1/4, 5/8 of the cell: off every lattice line and diagonal) of the viewBox grown by 2 units; *)
 (* thorough runs use the half-unit lattice (Dense)                                            *)
 Samples(vb) == IF IOEnv.DENSE = "1"
-               THEN { <<4 * i + 2, 4 * j + 2>> :
+               THEN { <<4 * i + 1, 4 * j + 2>> :
                         i \in (2 * (vb[1] - 2))..(2 * (vb[1] + vb[3] + 2) - 1),
                         j \in (2 * (vb[2] - 2))..(2 * (vb[2] + vb[4] + 2) - 1) }
-               ELSE { <<8 * i + 2, 8 * j + 6>> :
+               ELSE { <<8 * i + 2, 8 * j + 5>> :
                         i \in (vb[1] - 2)..(vb[1] + vb[3] + 1),
                         j \in (vb[2] - 2)..(vb[2] + vb[4] + 1) }
 
